@@ -6,12 +6,18 @@ from checks import wire_checks
 
 LEVEL = "proof"
 MANIFEST = dict(
-    text="Parsing untrusted bytes: fault-explicit Lean models of InputMemoryStream and of the modelled parsing constructors with "
-         "no-fault / only-malformed_packet theorems for all byte strings and chains of any depth; every entry point (modelled or not) "
-         "is additionally driven under ASan/UBSan/LSan on seed, mutated, every-length and random buffers with an accessor sweep.",
-    note="Proof covers the Lean models of the classes listed in the evidence (modelled_classes) and the generic backbone; "
-         "the tie is differential correspondence under sanitizers; unmodelled classes get the implementation-side oracle only. "
-         "Trusted: Lean kernel + standard axioms, hand-written models, harness, generators, translator/gen_tags.py.",
+    text="Lean 4: fault-explicit models of InputMemoryStream and of every modelled parsing constructor; per-class theorems (never an out-of-buffer "
+         "access, only malformed_packet, strictly shorter inner buffer) for all byte strings, assembled in Wire/RegistryFacts.lean into the "
+         "unconditional whole-packet theorem parse_any_safe (any entry point, any byte string, any nesting depth, any mix of families) and "
+         "parsed_layers_good (every accepted layer satisfies its class invariant); accessor-safety theorems for the typed option decoders. "
+         "Every entry point (modelled or not) is driven under ASan/UBSan/LSan on structured, mutated, every-length and random buffers with an accessor sweep.",
+    note="The theorems are about hand-written, code-shaped Lean models of 53 entry classes in seven families (link layers, IPv4 + options / AH / ESP, "
+         "IPv6 + extension headers, TCP + options / UDP, ICMP / ICMPv6 + extensions, DHCP / DHCPv6 / BootP / RTP / VXLAN / ARP / STP, 802.11 / "
+         "RadioTap / EAPOL; list in the evidence: modelled_classes); the tie to the C++ is differential correspondence of every line under "
+         "ASan/UBSan/LSan plus the Lean spec oracle evaluated on the implementation's own output; DNS as an entry class and the paths "
+         "the model cannot express (host routing table in IP::prepare_for_serialize, EAPOL null result) get the implementation-side oracle "
+         "only (evidence: unmodelled_lines). Trusted: Lean kernel + propext/Classical.choice/Quot.sound, the models, harness, generators, "
+         "translator/gen_tags.py; allocator / lifetime behaviour is observed by the sanitizers, not proved.",
     technique="Lean 4 proof over executable byte-level models + model/impl correspondence + spec oracle on impl output",
     design="DESIGN.md §6 C01, §11.2")
 
